@@ -88,7 +88,11 @@ func genTagFor(t *rapid.T, gen string) Tag {
 	case 3, 4:
 		return Tag{Key: "gengo:" + gen, Value: "false", Form: rapid.SampledFrom([]string{"=", "=", " "}).Draw(t, "form")}
 	case 5:
-		return Tag{Key: "gengo:" + gen, Value: rapid.SampledFrom([]string{"true", "x", "False", "0", "falsey", "no"}).Draw(t, "val"), Form: "="}
+		if rapid.Bool().Draw(t, "blankform") {
+			// a blank separates key and value, the value itself holds '=' or blanks: the key ends at whichever comes first
+			return Tag{Key: "gengo:" + gen, Value: rapid.SampledFrom([]string{"mode=fast", "interfaces=Object", "a b", "false=no", "x =y"}).Draw(t, "blankval"), Form: " "}
+		}
+		return Tag{Key: "gengo:" + gen, Value: rapid.SampledFrom([]string{"true", "x", "False", "0", "falsey", "no", "a b", "false x", "k=v"}).Draw(t, "val"), Form: "="}
 	case 6:
 		return Tag{Key: "gengo:" + gen + ":" + rapid.SampledFrom([]string{"sub", "opt", "interfaces"}).Draw(t, "sub"), Value: rapid.SampledFrom([]string{"", "false", "x"}).Draw(t, "subval"), Form: "="}
 	case 7:
